@@ -1184,3 +1184,166 @@ theorem groupStmts_imports (g : List Imp) (sts : List Stmt) (h : groupStmts g = 
             have := stmtOf_imports _ s hso (fun i hi => hrt i (List.mem_filter.mp (hp.mem_iff.mp hi)).1)
             simp only [List.cons_append, List.nil_append, List.flatMap_cons, List.flatMap_nil, List.append_nil, this, hia]
             exact (List.Perm.append_left _ hp).trans hpart
+
+/-! ## `Import.split` / `from_split` -/
+
+theorem dropWhile_head_not {α} (p : α → Bool) (l : List α) (x : α) (xs : List α)
+    (h : l.dropWhile p = x :: xs) : p x = false := by
+  induction l with
+  | nil => simp at h
+  | cons a as ih =>
+    simp only [List.dropWhile] at h
+    split at h
+    · exact ih h
+    · rename_i hp
+      injection h with h1 h2
+      subst h1
+      simpa using hp
+
+theorem rsplitDot_some (q a b : Str) (h : rsplitDot q = some (a, b)) : q = a ++ '.' :: b ∧ '.' ∉ b := by
+  unfold rsplitDot at h
+  simp only at h
+  split at h
+  · cases h
+  · rename_i x before hd
+    injection h with h
+    injection h with h1 h2
+    have hx := dropWhile_head_not _ _ _ _ hd
+    simp at hx
+    have hr : q.reverse = q.reverse.takeWhile (· ≠ '.') ++ q.reverse.dropWhile (· ≠ '.') :=
+      (List.takeWhile_append_dropWhile).symm
+    rw [hd, hx] at hr
+    constructor
+    · have := congrArg List.reverse hr
+      simp only [List.reverse_reverse, List.reverse_append, List.reverse_cons, List.append_assoc,
+        List.singleton_append] at this
+      rw [this, ← h1, ← h2]
+    · rw [← h2]
+      intro hm
+      have := takeWhile_all _ _ _ (List.mem_reverse.mp hm)
+      simp at this
+
+theorem noDotDot_mid (a b : Str) : noDotDot (a ++ '.' :: '.' :: b) = false := by
+  induction a with
+  | nil => rfl
+  | cons c cs ih =>
+    cases cs with
+    | nil =>
+      by_cases hc : c = '.'
+      · subst hc; rfl
+      · simp only [List.cons_append, List.nil_append]
+        unfold noDotDot
+        split
+        · rfl
+        · rename_i h1 h2; simp_all
+        · rename_i h; cases h
+    | cons d ds =>
+      simp only [List.cons_append] at ih ⊢
+      by_cases hc : c = '.' ∧ d = '.'
+      · obtain ⟨rfl, rfl⟩ := hc; rfl
+      · unfold noDotDot
+        split
+        · rfl
+        · rename_i h1 h2
+          injection h2 with h2 h3
+          subst h3
+          exact ih
+        · rename_i h; cases h
+
+theorem endsWith_dot_iff (s : Str) : endsWith s ['.'] = true ↔ ∃ s', s = s' ++ ['.'] := by
+  unfold endsWith
+  rw [List.isSuffixOf_iff_suffix]
+  constructor
+  · rintro ⟨t, ht⟩; exact ⟨t, ht.symm⟩
+  · rintro ⟨t, ht⟩; exact ⟨t, ht.symm⟩
+
+theorem fromSplit_split (i : Imp) (h : wfName i.fullname = true) : Imp.fromSplit i.split = i := by
+  obtain ⟨f, as⟩ := i
+  simp only [wfName, Bool.and_eq_true, decide_eq_true_eq] at h
+  obtain ⟨hq, hnd⟩ := h
+  unfold Imp.split
+  by_cases he : as = f
+  · simp [he, Imp.fromSplit]
+  · simp only [he, if_false]
+    obtain ⟨tw, htw⟩ : ∃ tw, tw = f.takeWhile (· = '.') := ⟨_, rfl⟩
+    obtain ⟨q, hqd⟩ : ∃ q, q = f.dropWhile (· = '.') := ⟨_, rfl⟩
+    rw [← hqd] at hq hnd
+    have hsplit : f = tw ++ q := by rw [htw, hqd]; exact (List.takeWhile_append_dropWhile).symm
+    have htwdots : ∀ c ∈ tw, c = '.' := by
+      intro c hc
+      rw [htw] at hc
+      simpa using takeWhile_all _ _ c hc
+    have hlev : levelOf f = tw.length := by
+      unfold levelOf
+      simp only [← htw]
+      rw [if_neg]
+      intro hk
+      have : f.length = tw.length + q.length := by rw [hsplit]; simp
+      have : q.length = 0 := by omega
+      exact hq (List.length_eq_zero_iff.mp this)
+    have htake : f.take tw.length = tw := by rw [hsplit]; simp
+    have hdrop : f.drop tw.length = q := by rw [hsplit]; simp
+    rw [hlev, htake, hdrop]
+    obtain ⟨c, q', hqc⟩ : ∃ c q', q = c :: q' := by
+      cases q with
+      | nil => exact absurd rfl hq
+      | cons c q' => exact ⟨c, q', rfl⟩
+    have hc : c ≠ '.' := by
+      have := dropWhile_head_not (· = '.') f c q' (by rw [← hqd, hqc])
+      simpa using this
+    cases hr : rsplitDot q with
+    | none =>
+      simp only []
+      by_cases hp : tw = []
+      · have hfq : f = q := by rw [hsplit, hp]; rfl
+        simp only [hp, List.append_nil, if_true, Imp.fromSplit]
+        by_cases ha : as = q
+        · exact absurd (ha.trans hfq.symm) he
+        · simp [ha, hfq]
+      · have hpn : tw ++ [] ≠ [] := by simpa using hp
+        simp only [hpn, if_false, Imp.fromSplit]
+        have hend : endsWith (tw ++ []) ['.'] = true := by
+          rw [endsWith_dot_iff]
+          obtain ⟨t', x, hx⟩ : ∃ t' x, tw = t' ++ [x] := by
+            refine ⟨tw.dropLast, tw.getLast hp, (List.dropLast_concat_getLast hp).symm⟩
+          have : x = '.' := htwdots x (by rw [hx]; simp)
+          exact ⟨t', by rw [List.append_nil, hx, this]⟩
+        simp only [hend, if_true]
+        by_cases ha : as = q
+        · simp [ha, hsplit]
+        · simp [ha, hsplit]
+    | some ab =>
+      obtain ⟨a, b⟩ := ab
+      obtain ⟨hqab, _⟩ := rsplitDot_some q a b hr
+      have hane : a ≠ [] := by
+        rintro rfl
+        rw [hqc] at hqab
+        simp at hqab
+        exact hc hqab.1
+      have hpn : tw ++ a ≠ [] := by simp [hane]
+      simp only [hpn, if_false, Imp.fromSplit]
+      have hend : endsWith (tw ++ a) ['.'] = false := by
+        cases hE : endsWith (tw ++ a) ['.'] with
+        | false => rfl
+        | true =>
+          exfalso
+          obtain ⟨s', hs'⟩ := (endsWith_dot_iff _).mp hE
+          obtain ⟨a', x, hx⟩ : ∃ a' x, a = a' ++ [x] :=
+            ⟨a.dropLast, a.getLast hane, (List.dropLast_concat_getLast hane).symm⟩
+          have hxd : x = '.' := by
+            rw [hx, ← List.append_assoc] at hs'
+            have := List.append_inj_right' hs' rfl
+            simpa using this
+          rw [hqab, hx, hxd] at hnd
+          have := noDotDot_mid a' b
+          simp only [List.append_assoc, List.singleton_append] at hnd
+          rw [this] at hnd
+          cases hnd
+      simp only [hend, Bool.false_eq_true, if_false]
+      have hf : tw ++ a ++ ['.'] ++ b = f := by rw [hsplit, hqab]; simp
+      have hf' : tw ++ (a ++ '.' :: b) = f := by rw [← hf]; simp
+      by_cases ha : as = b
+      · simp [ha, hf']
+      · simp [ha, hf']
+
+end Pfb.C11
